@@ -152,13 +152,17 @@ func findFirstBetween(value, sub, start, finish any) (any, error) {
 		for k := 0; k < j; k++ {
 			_, sz := utf8.DecodeRuneInString(s[n:])
 			if sz == 0 {
-				return nil, nil
+				break
 			}
 
 			n += sz
 		}
 
 		j = n
+	}
+
+	if i > j {
+		return nil, nil
 	}
 
 	r := strings.Index(s[i:j], p)
@@ -361,13 +365,17 @@ func findLastBetween(value, sub, start, finish any) (any, error) {
 		for k := 0; k < j; k++ {
 			_, sz := utf8.DecodeRuneInString(s[n:])
 			if sz == 0 {
-				return nil, nil
+				break
 			}
 
 			n += sz
 		}
 
 		j = n
+	}
+
+	if i > j {
+		return nil, nil
 	}
 
 	r := strings.LastIndex(s[i:j], p)
